@@ -157,32 +157,57 @@ def check(n0, n1, n2, m0, reopen, topsel, boost, hollow=0):
 NTOP = 7
 
 
-def c03_census(n0: int, n1: int, n2: int, m0: int, reopen: int, topsel: int, boost: int) -> bool:
-    """
-    Namespaces a::b::c with names drawn from {a, b, ab} (equal / prefix relations occur), a sibling namespace,
-    an optionally re-opened namespace, every kind of entity in every scope; top module namespace = a prefix of
-    the declared path (depth 0-3) or a path leaving it: exactly the entities inside the top namespace are exposed,
-    once, under their names, in the submodule of their namespace; submodules created once and before use.
-    pre: 0 <= n0 < 3 and 0 <= n1 < 3 and 0 <= n2 < 3 and 0 <= m0 < 3 and 0 <= reopen <= 1 and 0 <= topsel < NTOP and 0 <= boost <= 1
-    post: _
-    """
-    n0, n1, m0, topsel = pick(n0, 0, 3), pick(n1, 0, 3), pick(m0, 0, 3), pick(topsel, 0, NTOP)
+def _census(n0, n1, n2, m0, reopen, topsel, boost):
+    n1, m0, topsel = pick(n1, 0, 3), pick(m0, 0, 3), pick(topsel, 0, NTOP)
     if THOROUGH:
         n2, reopen, boost = pick(n2, 0, 3), pick(reopen, 0, 2), pick(boost, 0, 2)
     else:
         n2, reopen, boost = (n0 + n1 + topsel) % 3, (n0 + m0 + topsel) % 2, (n1 + topsel) % 2
     with concrete():
         ok = check(n0, n1, n2, m0, reopen, topsel, boost, hollow=(n0 + n1 + m0 + topsel) % 2 if not reopen else 0)
-    reached({"names": [POOL[n0], POOL[n1], POOL[n2], POOL[m0]], "reopen": reopen, "topsel": topsel} if (not ok or (n0 == 2 and topsel == 5)) else None)
+    reached({"names": [POOL[n0], POOL[n1], POOL[n2], POOL[m0]], "reopen": reopen, "topsel": topsel} if (not ok or (n1 == 2 and topsel == 5)) else None)
     return ok
+
+
+def c03_census_a(n1: int, n2: int, m0: int, reopen: int, topsel: int, boost: int) -> bool:
+    """
+    Namespaces N0::N1::N2 with names drawn from {a, b, ab} (equal / prefix relations occur; here N0 = a), a sibling
+    namespace, an optionally re-opened namespace, a namespace holding only a nested namespace, every kind of entity
+    in every scope; top module namespace = a prefix of the declared path (depth 0-3) or a path leaving it: exactly the
+    entities inside the top namespace are exposed, once, under their names, in the submodule of their namespace;
+    submodules created once and before use.
+    pre: 0 <= n1 < 3 and 0 <= n2 < 3 and 0 <= m0 < 3 and 0 <= reopen <= 1 and 0 <= topsel < NTOP and 0 <= boost <= 1
+    post: _
+    """
+    return _census(0, n1, n2, m0, reopen, topsel, boost)
+
+
+def c03_census_b(n1: int, n2: int, m0: int, reopen: int, topsel: int, boost: int) -> bool:
+    """
+    As c03_census_a with N0 = b.
+    pre: 0 <= n1 < 3 and 0 <= n2 < 3 and 0 <= m0 < 3 and 0 <= reopen <= 1 and 0 <= topsel < NTOP and 0 <= boost <= 1
+    post: _
+    """
+    return _census(1, n1, n2, m0, reopen, topsel, boost)
+
+
+def c03_census_ab(n1: int, n2: int, m0: int, reopen: int, topsel: int, boost: int) -> bool:
+    """
+    As c03_census_a with N0 = ab.
+    pre: 0 <= n1 < 3 and 0 <= n2 < 3 and 0 <= m0 < 3 and 0 <= reopen <= 1 and 0 <= topsel < NTOP and 0 <= boost <= 1
+    post: _
+    """
+    return _census(2, n1, n2, m0, reopen, topsel, boost)
 
 
 def conds(tier):
     q = tier == "quick"
     t = (lambda x, y: x) if q else (lambda x, y: y)
+    b = "N0 fixed; N1, sibling from a 3-name pool x 7 top-namespace choices%s" % (
+        " x third level x re-opened x serialization" if not q else "; third level / re-open / hollow / serialization derived")
     return [
-        xh.Cond("harness.c03_census", "c03_census", t(420, 3600), kind="shape-bounded", path_timeout=90,
-                examples=["n0=0, n1=0, n2=0, m0=1, reopen=1, topsel=2, boost=0", "n0=2, n1=0, n2=1, m0=0, reopen=1, topsel=5, boost=1", "n0=1, n1=2, n2=0, m0=1, reopen=0, topsel=0, boost=0"],
-                bounds="namespace names from a 3-name pool at 3 levels + sibling (81 combinations%s) x 7 top-namespace choices%s" % (
-                    "" if not q else ", third level derived", " x re-opened x serialization" if not q else "; re-open / serialization derived")),
+        xh.Cond("harness.c03_census", f, t(420, 3600), kind="shape-bounded", path_timeout=90, examples=ex, bounds=b)
+        for f, ex in (("c03_census_a", ["n1=0, n2=0, m0=1, reopen=1, topsel=2, boost=0", "n1=2, n2=0, m0=1, reopen=0, topsel=0, boost=0"]),
+                      ("c03_census_b", ["n1=2, n2=0, m0=1, reopen=0, topsel=6, boost=0"]),
+                      ("c03_census_ab", ["n1=0, n2=1, m0=0, reopen=1, topsel=5, boost=1"]))
     ]
